@@ -40,6 +40,7 @@ def _case(draw, nmax):
     case = {"kind": kind, "metric": name, "pkind": pk, "nt": nt, "nv": nv, "nq": nq, "X": pts, "Y": Y, "Yv": draw(gen.labels(nv, K, K)), "pre": pre,
             "max_k": draw(st.integers(1, min(3, nt - 1)))}
     case["min_k"] = draw(st.integers(1, case["max_k"]))
+    case["scale"] = draw(st.sampled_from([1.0, 1.0, 1.0, 1e-5, 3e-5, 1e-6]))  # tiny-scale data: arcs around the 1e-5 density threshold
     if pk == "lattice":
         case["train_dtype"] = draw(st.sampled_from(["float64", "int64", "uint8", "float32"]))
     return case
@@ -68,10 +69,13 @@ def check_case(case):
 
     kind, name = case["kind"], case["metric"]
     nt, nv, nq = case["nt"], case["nv"], case["nq"]
-    pts = [list(map(float, p)) for p in case["X"]]
+    sc = case.get("scale", 1.0) if case.get("train_dtype", "float64") == "float64" and case["pkind"] != "prob" else 1.0
+    pts = [[float(v) * sc for v in p] for p in case["X"]]
     ref = models.eval_matrix(name, pts)
     if not all(math.isfinite(v) for row in ref for v in row):
         return Outcome.discard("non_finite_metric_value")
+    if any(0 < abs(v) < 1e-300 for row in ref for v in row):
+        return Outcome.discard("subnormal_metric_value")  # e.g. gaussian of far points: 1/d overflows, outside any realistic domain
     cls = models.classes()[kind]
     X = np.array(pts, dtype=float)
     Xt, Xv, Xq = X[:nt], X[nt:nt + nv], X[nt + nv:]
